@@ -26,12 +26,16 @@ observed results for conversions) and requires, of every conversion the property
   F  no conversion changes an object that existed before it (its argument, its base, anything else);
   B  a whole-track conversion to ENU records the base it used: Track.base holds the geographic position of the base at the
      time of the call, and still does after the caller updates his base object (checked through the next conversion that
-     relies on the recorded base).
+     relies on the recorded base). When the call leaves the choice of the base to the library (toENUCoords() without
+     argument, toENUCoordsIfNeeded()) the property does not say which point that is: the oracle takes the base on record
+     after the call (a GeoCoords of the property's domain) as the base used and applies V and R with it — the new local
+     coordinates must be those about the recorded base, and the return through the record must give the positions back;
+     what toENUCoordsIfNeeded() returns must denote the recorded base.
 Refused calls (wrong class / number of arguments / SRID) are outside the property: the oracle stops there (their error
 kind is compared with the model's)."""
 import math
 from engine import fbits, bitsf, err_kind
-from props.geo14 import (TOL_DEG, TOL_M, o_g2e, o_e2g, geo_diff, m_diff, close_geo, close_m, o_enu, o_unenu)
+from props.geo14 import (TOL_DEG, TOL_M, o_g2e, o_e2g, geo_diff, m_diff, close_geo, close_m, o_enu, o_unenu, wrap3, wrap_num, fit3, corr_close_m, corr_close_geo)
 
 METH = {"ENU": "toENUCoords", "GEO": "toGeoCoords", "ECEF": "toECEFCoords", "PROJ": "toProjCoords"}
 ATTRS = {"G": ("lon", "lat", "hgt"), "N": ("E", "N", "U"), "E": ("X", "Y", "Z")}
@@ -224,8 +228,10 @@ def valid(case):
 # the real code
 # ------------------------------------------------------------------------------------------------------
 class Runner:
-    def __init__(self, oc, Obs, Track, ObsTime):
+    def __init__(self, oc, Obs, Track, ObsTime, ty=None):
+        """ty: number types of the coordinate slots (geo14.py), applied to the values of new and set ops"""
         self.oc, self.Obs, self.Track, self.ObsTime = oc, Obs, Track, ObsTime
+        self.ty = ty
         self.kinds = {oc.GeoCoords: "G", oc.ENUCoords: "N", oc.ECEFCoords: "E"}
         self.cls = {"G": oc.GeoCoords, "N": oc.ENUCoords, "E": oc.ECEFCoords}
 
@@ -279,15 +285,16 @@ class Runner:
             res, tk = None, None
             try:
                 if op[0] == "new":
-                    o = self.cls[op[2]](*op[3])
+                    o = self.cls[op[2]](*wrap3(op[3], self.ty))
                     named[op[1]] = o
                     res = see(o)
                 elif op[0] == "set":
                     o = val(op[1])
+                    x = wrap_num(op[3], self.ty[op[2]]) if self.ty else op[3]
                     if op[4] == "setter":
-                        getattr(o, ("setX", "setY", "setZ")[op[2]])(op[3])
+                        getattr(o, ("setX", "setY", "setZ")[op[2]])(x)
                     else:
-                        setattr(o, ATTRS[self.kind(o)][op[2]], op[3])
+                        setattr(o, ATTRS[self.kind(o)][op[2]], x)
                 elif op[0] == "call":
                     o = val(op[2])
                     r = getattr(o, METH[op[3]])(*[val(v) for v in op[4]])
@@ -393,6 +400,7 @@ def decode(reply):
 
 
 def compare(case, a, b):
+    close_m, close_geo = corr_close_m(case), corr_close_geo(case)
     if a["err"] != b["err"]:
         return "error: impl=%s model=%s (after %d / %d completed ops)" % (a["err"], b["err"], len(a["steps"]), len(b["steps"]))
     if len(a["steps"]) != len(b["steps"]):
@@ -661,16 +669,20 @@ class Oracle:
                 kinds = {self.vals[p][0] for p in t["pts"]}
                 if len(kinds) != 1:
                     return None
-                if kinds == {"G"}:
-                    first = list(self.vals[t["pts"][0]][1])
-                    r = self.track_conv(j, op, st, out, arg=("V", "G", first))
+                if kinds == {"G"} or (kinds == {"E"} and st is not None and (st["new"] or st["trk"][0] != t["pts"])):
+                    # (the code converts a geographic track only; a track of ECEF positions is left alone. Whether such a
+                    # track "needs" the conversion is not fixed by the property: if it was converted, it is judged the same way)
+                    # the library picks the base (a copy of the first position, today): judged against the base on record
+                    r = self.track_conv(j, op, st, out, default=True)
                     if r is not None:
                         return None if r == "stop" else r
-                    # what the method returns: the base it used, a copy of the first position
-                    if st["res"] is None or st["res"] < n0 or self.vals[st["res"]][0] != "G" or \
-                            geo_diff(self.vals[st["res"]][1], first):
-                        return "op %d, %s returns %r, expected a copy of the first position %r (the base used)" % (
-                            j, opname(op), None if st["res"] is None else self.vals[st["res"]], first)
+                    # what the method returns ("used reference point"): a base the caller may pass to the return
+                    # conversion, so it has to denote the base on record; which point that is, is the library's choice
+                    rb = self.pt(self.tracks[op[1]]["base"])
+                    if st["res"] is None or self.vals[st["res"]][0] != "G" or rb is None or \
+                            geo_diff(self.vals[st["res"]][1], rb[1]):
+                        return "op %d, %s returns %r, but the base it recorded (Track.base) is %r" % (
+                            j, opname(op), None if st["res"] is None else self.vals[st["res"]], rb)
                     if op[2] is not None:
                         self.named[op[2]] = st["res"]
                 else:
@@ -690,7 +702,11 @@ class Oracle:
                 j, name, c[0], self.vals[c[0]], c[1:])
         return None
 
-    def track_conv(self, j, op, st, out, arg=None):
+    def track_conv(self, j, op, st, out, default=False):
+        """one whole-track conversion. default = the call leaves the choice of the base to the library
+        (Track.toENUCoords() without argument on a Geo/ECEF track, Track.toENUCoordsIfNeeded()): the property does not say
+        which point that is — it says the conversion records the base it used — so the conversion is judged against the
+        base the track has on record after the call, whatever point that is"""
         t = self.tracks[op[1]]
         name = opname(op)
         if not t["pts"]:
@@ -700,8 +716,11 @@ class Oracle:
             return "stop"                 # mixed classes: outside the property
         k0 = kinds.pop()
         m = op[2] if op[0] == "tc" else "ENU"
-        arg = arg or self.val(op[3])
+        arg = ("none",) if op[0] == "tif" else self.val(op[3])
         used, noop, rec = None, False, None
+        n0 = len(self.vals)
+        objs = {} if st is None else {n0 + i: o for i, o in enumerate(st["new"])}
+        getobj = lambda r: objs[r] if r >= n0 else [self.vals[r][0]] + self.vals[r][1]
         if m in ("ECEF", "GEO"):
             if (m == "ECEF" and k0 == "E") or (m == "GEO" and k0 == "G"):
                 noop = True
@@ -720,8 +739,21 @@ class Oracle:
                 b2 = ("S", arg[1]) if arg[0] == "S" else self.pt(arg)
                 bases = [b1, b2]
                 rec = b2
+            elif arg[0] == "none" or default:
+                if any(not in_domain(k0, self.vals[p][1]) for p in t["pts"]):
+                    return "stop"
+                if st is None:
+                    return "op %d, %s on a track of %d %s positions (Track.base %r) failed with %s" % (
+                        j, name, len(t["pts"]), k0, t["base"], out["err"])
+                b = st["trk"][1]
+                o = getobj(b[1]) if (b is not None and b[0] == "R" and (b[1] < n0 or b[1] in objs)) else None
+                if o is None or o[0] != "G" or not all(math.isfinite(x) for x in o[1:]):
+                    return "op %d, %s (the library chooses the base): Track.base is %r afterwards, expected the base used, as GeoCoords" % (
+                        j, name, b if o is None else o)
+                bases = [("G", list(o[1:]))]
+                rec = bases[0]
             else:
-                used = ("R", t["pts"][0]) if arg[0] == "none" else arg
+                used = arg
                 bases = [("S", used[1]) if used[0] == "S" else self.pt(used)]
                 rec = bases[0]
         else:
@@ -742,10 +774,7 @@ class Oracle:
         msg = self.frame_clause(j, name, st)
         if msg:
             return msg
-        n0 = len(self.vals)
         pts, base = st["trk"]
-        objs = {n0 + i: o for i, o in enumerate(st["new"])}
-        getobj = lambda r: objs[r] if r >= n0 else [self.vals[r][0]] + self.vals[r][1]
         if len(pts) != len(t["pts"]) or any(r >= n0 + len(st["new"]) for r in pts):
             return "op %d, %s: the track now holds %d positions, it had %d" % (j, name, len(pts), len(t["pts"]))
         newknow = {}
@@ -794,6 +823,36 @@ class Oracle:
                 pass
         t["pts"], t["base"] = list(pts), newbase
         return None
+
+
+def finding_recorded_base(case, msg):
+    """the listed finding, met in a history: Track.toENUCoords() without argument on a track of ECEFCoords positions takes the
+    first position (an ECEFCoords) as base and records its closed-form inverse, about a micrometre away; what comes back
+    through the record is shifted by that much, which within 0.6 degree of a pole is more than 1e-9 degree of longitude
+    (never more than 1e-8 degree; latitude within the bound). Recognised from the oracle's message (a round-trip clause R on
+    a geographic result: the longitude alone is off, by less than 1e-8 degree, for a position beyond 89.4 degrees) and from
+    the history (such a call before the failing op)."""
+    import re
+    m = re.match(r"op (\d+), .* but the position it was derived from is \[([^\]]+)\]: angles differ by "
+                 r"\(([-+.\de]+), ([-+.\de]+)\) deg$", msg, re.S)
+    if not m:
+        return False
+    j = int(m.group(1))
+    try:
+        lat = float(m.group(2).split(",")[1])
+    except (ValueError, IndexError):
+        return False
+    if float(m.group(3)) > 1e-8 or float(m.group(4)) > TOL_DEG or abs(lat) < 89.4:
+        return False
+    s = Static()
+    for op in case["ops"][:j]:
+        if op[0] == "tc" and op[2] == "ENU" and op[3] is None and isinstance(op[1], int) and 0 <= op[1] < len(s.tracks) \
+                and s.tracks[op[1]]["kinds"] and s.tracks[op[1]]["kinds"][0] == "E":
+            return True
+        s.step(op)
+        if s.dead or not s.ok:
+            break
+    return False
 
 
 def spec(case, out):
@@ -1152,7 +1211,35 @@ def features(case):
     return {"base_updated_then_reused": reused, "updates": min(nset, 4), "tracks": sum(1 for o in case["ops"] if o[0] == "mk") > 0}
 
 
+def typed_hist(case, ty):
+    """the history with its values moved (deterministically: equal values stay equal) so that the int-like slots of ty apply,
+    and tagged with ty: every new / set op hands its numbers over in these types (geo14.py)"""
+    s = Static()
+    ops = []
+    for op in case["ops"]:
+        if op[0] == "new":
+            op = ["new", op[1], op[2], fit3(op[2], op[3], ty)]
+        elif op[0] == "set":
+            ok = s.ok
+            k = s.val_kind(op[1])
+            s.ok = ok
+            v = [0.0, 0.0, 0.0]
+            v[op[2]] = op[3]
+            op = ["set", op[1], op[2], fit3(k if k in ("G", "E", "N") else "N", v, ty)[op[2]], op[4]]
+        ops.append(op)
+        if not s.dead:
+            s.step(op)
+    return dict(case, ops=ops, ty=list(ty))
+
+
 def shrink(case):
+    for c in _shrink(case):
+        if case.get("ty"):
+            c = dict(c, ty=case["ty"])
+        yield c
+
+
+def _shrink(case):
     ops = case["ops"]
     for i in range(len(ops) - 1, -1, -1):
         c = {"kind": "hist", "ops": ops[:i] + ops[i + 1:]}
